@@ -24,6 +24,7 @@ func runC18(c *Ctx) {
 	c.Clause("C18.3 frame parser: reserved types {2,6,8,9} close the connection with H3_FRAME_UNEXPECTED and return an error, unknown types are skipped; DATA-frame length accounting in Stream.Read; the handler runs under recover")
 	c.Clause("C18.4 allocations sized by a peer-supplied frame length are preceded by a limit comparison")
 	c.Clause("C18.5 every index, slice, computed-size allocation, explicit panic, unchecked assertion and integer division reachable from the HTTP/3 frame, SETTINGS, capsule, field-section and datagram parsers is compiler-proven or follows from a length fact on that very slice")
+	c.Clause("C18.6 the client reads the request body only through the cancelingReader wrapper")
 	c.NotCovered("end-to-end equality of what the handler sees and what the client sent")
 	c.NotCovered("behaviour under packet loss (delegated to the QUIC layer properties)")
 
@@ -32,6 +33,7 @@ func runC18(c *Ctx) {
 	c.rule("C18.3", func() { c18Frames(c) })
 	c.rule("C18.4", func() { c18Alloc(c) })
 	c.rule("C18.5", func() { c18Bounds(c) })
+	c.rule("C18.6", func() { c18BodyThroughCancelingReader(c) })
 }
 
 func c18Nil(c *Ctx) {
